@@ -996,8 +996,27 @@ static void gen_expr(Node *node) {
     gen_expr(node->rhs);
     pop("%rdi");
 
-    int sz = node->lhs->ty->base->size;
+    Type *ty = node->lhs->ty->base;
+    int sz = ty->size;
+
+    // Floating-point values travel through the integer register.
+    if (ty->kind == TY_FLOAT)
+      println("  movd %%xmm0, %%eax");
+    else if (ty->kind == TY_DOUBLE)
+      println("  movq %%xmm0, %%rax");
+
     println("  xchg %s, (%%rdi)", reg_ax(sz));
+
+    // xchg leaves the upper bits of the operand in %rax; produce a
+    // properly extended value as load() does.
+    if (ty->kind == TY_FLOAT)
+      println("  movd %%eax, %%xmm0");
+    else if (ty->kind == TY_DOUBLE)
+      println("  movq %%rax, %%xmm0");
+    else if (sz == 1)
+      println("  %s %%al, %%eax", ty->is_unsigned ? "movzbl" : "movsbl");
+    else if (sz == 2)
+      println("  %s %%ax, %%eax", ty->is_unsigned ? "movzwl" : "movswl");
     return;
   }
   }
